@@ -33,7 +33,7 @@ def string_program(rng, valid=True):
     for _ in range(rng.choice([2, 3, 5, 8, 14])):
         r, q, t = rng.randrange(4), rng.randrange(4), rng.randrange(4)
         op = rng.choice(["cz", "cl", "cs", "ca", "ca", "cn", "ci", "il", "ts", "ae", "as", "as", "pe", "ps", "ie", "ie", "ir", "ir",
-                         "ea", "ef", "er", "er", "sw", "ix", "ob", "ob", "ob", "am", "am", "pm", "mv", "sa"])
+                         "ea", "ef", "er", "er", "sw", "ix", "ob", "ob", "ob", "am", "am", "pm", "mv", "sa", "cq", "cq", "cq", "bi", "ri", "ri"])
         if op in ("cz", "cl", "cs", "ts"):
             bs, h = rand_text_hex(rng)
             parts.append("%s %d %s" % (op, r, h))
@@ -104,12 +104,32 @@ def string_program(rng, valid=True):
                 size[q] = 0
         elif op == "sa":
             parts.append("sa %d" % r)
+        elif op == "cq":
+            parts.append("cq %d %d" % (r, q))      # ==, !=, <, >, <=>, hash of two registers (often built differently from equal text)
+        elif op in ("bi", "ri"):
+            parts.append("%s %d %d %s" % (op, r, rng.randrange(size[r] + 1), tg.fmt_el(el())))
         elif op == "ob":
             parts.append("ob %d" % r)        # to_string in mid-program: a cached text must not survive later edits
         elif op == "ix":
             i = rng.randrange(size[r] + 1)
             parts.append("ix %d %d %s" % (r, i, tg.fmt_el(el())))
     return "P " + " ; ".join(parts)
+
+
+def compare_route_cases(rng, n):
+    """the same text built by two different routes, then one of them edited in place (attribute only / back again), compared"""
+    cs = []
+    for _ in range(n):
+        bs, h = rand_text_hex(rng, allow_nul=False)
+        if not bs:
+            continue
+        e2 = tg.fmt_el([5, bs[-1], 0, 0] + tg.attr(rng))
+        e0 = tg.fmt_el([5, bs[-1], 0, 0] + list(tg.DEFAULT_ATTR))
+        route = rng.choice(["cs 1 %s" % h, "cl 1 %s" % h, "ts 1 %s" % h, "cz 1 %s" % h, "ci 1 %d %s" % (len(bs), " ".join(tg.fmt_el([5, b, 0, 0] + list(tg.DEFAULT_ATTR)) for b in bs))])
+        edit = rng.choice(["ri 1 0 " + e2, "bi 1 %d %s" % (len(bs) - 1, e2), "ix 1 %d %s" % (len(bs) - 1, e2)])
+        undo = rng.choice(["ri 1 0 " + e0, "bi 1 %d %s" % (len(bs) - 1, e0)])
+        cs.append(Case("P cs 0 %s ; %s ; cq 0 1 ; %s ; cq 0 1 ; cq 1 0 ; %s ; cq 0 1" % (h, route, edit, undo), tag="string-compare-routes"))
+    return cs
 
 
 class Prop(PropBase):
@@ -201,6 +221,7 @@ class Prop(PropBase):
             cs.append(Case("P ca 0 %s 0 1 0 0 0 4 0 0 1 4 7 5" % h, sweep="string-ctors-nul"))
         for _ in range(2500 if tier == "quick" else 60000):
             cs.append(Case(string_program(rng), tag="string-programs"))
+        cs += compare_route_cases(rng, 400 if tier == "quick" else 8000)
         for _ in range(300 if tier == "quick" else 5000):
             cs.append(Case(string_program(rng, valid=False), tag="string-programs-any-storage", oracle=False))
         # correspondence only: ill-formed UTF-8 storage
